@@ -78,6 +78,19 @@ class Inputs(object):
         self.lpath = os.path.join(d, 'beads_lin.fcs')
         fcsgen.write_sample(self.lpath, lev.tolist(), ['FSC', 'SSC', 'FL1'], [1024] * 3, bits=16, pne=['0,0', '0,0', '0,0'])
 
+    def floatneg(self):
+        """single-precision sample with readings below zero: the most negative ones of FSC and SSC a hair apart (1e-5
+        relative), that of FL1 far from both - three different linear widths of the logicle scale"""
+        p = os.path.join(self.dir, 'cells_floatneg.fcs')
+        if not os.path.exists(p):
+            a = np.asarray(FlowCal.io.FCSData(self.path).view(np.ndarray), dtype=np.float64) + 0.25
+            a[5] = [-100.0, -100.001, -5.0]
+            a[6] = [-3.0, -50.0, -1.0]
+            fcsgen.write_sample(p, a.tolist(), ['FSC', 'SSC', 'FL1'], [1024] * 3, datatype='F', pne=['0,0'] * 3)
+        with warnings.catch_warnings():
+            warnings.simplefilter('ignore')
+            return FlowCal.io.FCSData(p)
+
     def raw(self):
         with warnings.catch_warnings():
             warnings.simplefilter('ignore')
@@ -189,6 +202,10 @@ def registry(I):
                      (lambda a: a['s'].hist_bins(a['ch'], a['nb'], a['sc']),
                       {'s': conts[state](), 'ch': list(ch) if isinstance(ch, list) else ch,
                        'nb': list(nb) if isinstance(nb, list) else nb, 'sc': scale})), query=True)
+    for ch in ('FSC', 'SSC', 'FL1'):
+        for nb in (None, 64):
+            add('io.FCSData.hist_bins', 'float-neg/logicle/%s/%s' % (ch, nb),
+                (lambda ch=ch, nb=nb: (lambda a: a['s'].hist_bins(a['ch'], a['nb'], 'logicle'), {'s': I.floatneg(), 'ch': ch, 'nb': nb})), query=True)
     add('io.FCSData', 'load', lambda: (lambda a: FlowCal.io.FCSData(a['path']), {'path': I.path}))
     add('io.FCSFile', 'load', lambda: (lambda a: FlowCal.io.FCSFile(a['path']).data.shape, {'path': I.path}))
     # the documented other form of `infile`: an open file (a real handle / a file-like wrapper), read once and twice
@@ -518,7 +535,9 @@ def main(chk, replay=None):
     pairs = list(itertools.permutations(range(len(Q)), 2))
     rnd = random.Random(chk.seed)
     if chk.quick:
-        pairs = rnd.sample(pairs, min(len(pairs), 600))
+        # (all ordered pairs of logicle queries on the sample with negative readings, and a sample of the others)
+        pairs = [p_ for p_ in pairs if 'float-neg' in Q[p_[0]].name and 'float-neg' in Q[p_[1]].name] + \
+            rnd.sample(pairs, min(len(pairs), 600))
     by_state = {}
     for i, j in pairs:
         q1, q2 = Q[i], Q[j]
